@@ -38,6 +38,12 @@ def callee_name(call):
     return strip_targs(c) if c else None
 
 
+def _is_this_like(n):
+    while is_node(n) and n['k'] == 'cast':
+        n = n['e']
+    return is_node(n) and n['k'] == 'this'
+
+
 def render(fn, n, depth=0):
     """Readable, normalised rendering of an expression (casts and wrappers
     already stripped by the extractor; remaining implicit casts are dropped)."""
@@ -65,7 +71,7 @@ def render(fn, n, depth=0):
         return n['name'].split('::')[-1] if n['dk'] in ('param', 'local') else n['name']
     if k == 'member':
         b = n.get('base')
-        if b is not None and b['k'] == 'this':
+        if b is not None and _is_this_like(b):
             return n['name']
         return r(b) + ('->' if n.get('arrow') else '.') + n['name']
     if k == 'call':
@@ -77,7 +83,7 @@ def render(fn, n, depth=0):
             if op == '[]':
                 return r(args[0]) + '[' + r(args[1]) + ']'
             if op == '->':
-                return r(args[0]) + '->'
+                return r(args[0])
             if len(args) == 2:
                 return '(' + r(args[0]) + ' ' + op + ' ' + r(args[1]) + ')'
             if len(args) == 1:
@@ -87,7 +93,7 @@ def render(fn, n, depth=0):
             return r(n.get('obj'))
         if 'obj' in n:
             o = n['obj']
-            pre = '' if o['k'] == 'this' else r(o) + ('->' if n.get('arrow') else '.')
+            pre = '' if _is_this_like(o) else r(o) + ('->' if n.get('arrow') else '.')
             return pre + name + '(' + ', '.join(r(a) for a in args) + ')'
         if n.get('callee'):
             return strip_targs(n['callee']) + '(' + ', '.join(r(a) for a in args) + ')'
